@@ -67,8 +67,18 @@ def run(ctx):
         lba = BA.of(cl)
         ex = lba.calls(r"nix::unistd::execvp")
         ad = lba.calls(r"cycles::add")
-        common.mpt(ctx, "R12.2", "%s|cycles::add-before-exec" % cl.key, cl, [0], ex, ad, "cycles::add precedes execvp on every path",
-                   "the child can be exec'd without the lock id of the target its parent keeps locked: a cycle through it is not detected and the chain blocks in F_SETLKW for ever")
+        # the id may be skipped only where an ancestor has provably exported it already: on the
+        # `env.unlocked` side (this process was started by redo-unlocked for exactly this target), provided the
+        # redo-unlocked child closure itself adds the id (checked as its own instance)
+        unlocked_side = [t_t for (sw_, t_t, f_t) in common.field_switches(cl, "env::Env.unlocked")]
+        others_add = all(bool(BA.of(c2).calls(r"cycles::add")) for (_, _, c2) in fcs if c2.key != cl.key and "unlocked" in c2.key)
+        p_strict = lba.path([0], ex, avoid=frozenset(ad), incl=True) if ex else [0]
+        p_relaxed = lba.path([0], ex, avoid=frozenset(ad) | frozenset(unlocked_side), incl=True) if ex else [0]
+        ok_add = bool(ad) and (p_strict is None or (p_relaxed is None and others_add and bool(unlocked_side)))
+        ctx.ob("R12.2", "%s|cycles::add-before-exec" % cl.key, ok_add, where=ctx.where(cl, ex[0]) if ex else cl.span,
+               detail=("cycles::add precedes execvp on every path" if p_strict is None else "cycles::add is skipped only on the env.unlocked side, where redo-unlocked's own child closure has already exported the id") if ok_add else
+               "the child can be exec'd without the lock id of the target its parent keeps locked: a cycle through it is not detected and the chain blocks in F_SETLKW for ever",
+               witness={"path": p_strict[:15] if p_strict else None})
         ok = False
         if ad:
             sl, org, _ = backward_direct(cl, op_local(cl.blocks[ad[0]]["term"]["args"][0]), depth=80)
